@@ -21,6 +21,7 @@ VIEWS: typing.Dict[str, typing.Tuple[str, bool]] = {
     "https": ("http", True),
     "httphead": ("http", False),
     "wap": ("wap", False),
+    "wapauto": ("wap", False),       # no /wap prefix: detected from the Accept / X-Wap-Profile headers
     "gemini": ("gemini", True),
     "spartan": ("spartan", False),
 }
@@ -36,7 +37,7 @@ EXPECTED_PROTOCOL = {
     "gopherp+": "GopherPlusProtocol", "gopherp$": "GopherPlusProtocol",
     "gopherp!": "GopherPlusProtocol", "gopherps+": "SecureGopherPlusProtocol",
     "gopherps$": "SecureGopherPlusProtocol", "http": "HTTPProtocol", "https": "HTTPSProtocol",
-    "httphead": "HTTPProtocol", "wap": "WAPProtocol", "gemini": "GeminiProtocol",
+    "httphead": "HTTPProtocol", "wap": "WAPProtocol", "wapauto": "WAPProtocol", "gemini": "GeminiProtocol",
     "spartan": "SpartanProtocol",
 }
 
@@ -64,11 +65,12 @@ def render(view: str, selector: bytes, query: typing.Optional[bytes] = None,
     path = selector.decode("latin-1") if prequoted else quote(selector)
     if family in ("http", "wap"):
         method = "HEAD" if view == "httphead" else "GET"
-        if family == "wap":
+        if family == "wap" and view != "wapauto":
             path = "/wap" + path
         if query is not None:
             path += "?searchrequest=" + urllib.parse.quote_plus(query)
-        return ("%s %s HTTP/1.0\r\nHost: %s\r\n\r\n" % (method, path, HOST)).encode("latin-1"), tls
+        extra = "Accept: text/html, text/vnd.wap.wml\r\nX-Wap-Profile: \"http://wap.example/p\"\r\n" if view == "wapauto" else ""
+        return ("%s %s HTTP/1.0\r\nHost: %s\r\n%s\r\n" % (method, path, HOST, extra)).encode("latin-1"), tls
     if family == "gemini":
         url = "gemini://%s%s" % (HOST, path)
         if query is not None:
